@@ -129,7 +129,7 @@ func snapDiffTables(st *eng.BlockStep) []string {
 			continue
 		}
 		for k, v := range rows {
-			if string(pre[k]) != string(v) {
+			if pv, ok := pre[k]; !ok || !proto.Equal(pv, v) {
 				out = append(out, t)
 				break
 			}
